@@ -149,3 +149,37 @@ def plan_C19(tier, seed, q):
             "f(args); plus e2e profile 'ctx': deadlines shorter than the handler delay on the real server, return instant == deadline "
             "in virtual time, context buffer used iff the encoded reply fits, canary bytes intact",
             "jobs": jobs, "min_evaluations": 1000, "min_distinct": 500, "parallel": 14, "assumptions": V_ASSUME}
+
+
+def cut_jobs(prop, tier, seed, full_modes, sampled_modes, every, shards, kind="vt", timeout=1800):
+    jobs = []
+    for s in range(shards):
+        jobs.append(Job(kind, "cut", {"prop": prop, "tier": tier, "seed": seed, "from": s, "to": 0, "stride": shards,
+                                      "extra": {"modes": full_modes, "every": 1}}, timeout=timeout))
+    if sampled_modes:
+        for s in range(max(1, shards // 2)):
+            jobs.append(Job(kind, "cut", {"prop": prop, "tier": tier, "seed": seed, "from": s, "to": 0, "stride": max(1, shards // 2),
+                                          "extra": {"modes": sampled_modes, "every": every}}, timeout=timeout))
+    return jobs
+
+
+CUT_RULE = ("a fixed conversation (10 asynchronous calls of mixed sizes incl. one failing, a ping, a stream with a server push and an "
+            "echo, a final blocking call) is run uncut to learn its byte length per direction, then re-run once per (server/client mode "
+            "combination, direction, byte offset, kind in {reset, EOF, custom I/O error}) and once per (step 0..8, local Close | "
+            "Server.Close, synchronous | concurrent); distinct = distinct (mode, direction, offset, kind); non-trivial = the cut tripped")
+
+
+def plan_C03(tier, seed, q):
+    if q:
+        full = [[0, 5, 6, 1][seed % 4]]
+        sampled = [m for m in range(9) if m not in full]
+        jobs = cut_jobs("C03", tier, seed, full, sampled, 7, 12)
+    else:
+        jobs = cut_jobs("C03", tier, seed, list(range(9)), [], 1, 16, timeout=3000)
+        jobs += cut_jobs("C03", tier, seed, [0, 5], [], 1, 8, kind="vt-race", timeout=3000)
+    return {"level": "fault_enumeration", "exhaustive": True, "rule": CUT_RULE + "; oracles at quiescence: every operation has returned; a call whose "
+            "complete response frame lies inside the bytes delivered to the client succeeded with f(args) (or its own error text); every other "
+            "outstanding call failed, with ErrShutdown when it had been written and the end was orderly; operations started after the end "
+            "was observable fail with ErrShutdown in zero virtual time; a Call issued afterwards fails at once writing nothing",
+            "jobs": jobs, "min_evaluations": 2000, "min_distinct": 1000, "parallel": 16, "assumptions": V_ASSUME + [
+                "quick enumerates every byte offset for one mode combination (chosen by the seed) and every 7th offset for the other eight; thorough enumerates all nine completely"]}
